@@ -226,7 +226,11 @@ class Portfolio(IncrementalTrackingSolver):
     def _close_existing(self):
         _debug("Closing resources..")
         if self._ctrl_pipe :
-            self._ctrl_pipe.send("exit")
+            try:
+                self._ctrl_pipe.send("exit")
+            except OSError:
+                # The process of the previous solver is already gone
+                pass
             self._ctrl_pipe = None
         if self._ext_solver and self._ext_solver.is_alive():
             self._ext_solver.terminate()
